@@ -20,11 +20,13 @@ def args_of(c, trackfile):
                       "--LinearRF", "true" if c["rf"] == "linear" else "false", "--verbose", "true" if c["verbose"] else "false"]
     if c["track"] is not None:
         a += ["--tracking", trackfile, "--FPTrack", c["track"]]
+    if c.get("mod"):     # deterministic RF phase modulation (the modulation record is flushed in the output block)
+        a += ["--RFPhaseModAmplitude", 0.01, "--RFPhaseModFrequency", 130000.0]
     return a
 
 
 def phys_key(c):
-    return (c["renorm"], c["rf"], c.get("imp", "collimator"), c.get("n", 16))
+    return (c["renorm"], c["rf"], c.get("imp", "collimator"), c.get("n", 16), c.get("mod", 0))
 
 
 def records(doc):
@@ -45,7 +47,7 @@ def records(doc):
 def run(res, tier):
     res.assumptions += [
         "all runs of one check use the FFTW wisdom created by a warm-up run (the property says: same wisdom)",
-        "deterministic RF (no noise, no modulation); /Particles is compared only between runs with the same tracking file and model (deterministic models 0-2)",
+        "deterministic RF (no noise; phase modulation in two physics keys); /Particles is compared only between runs with the same tracking file and model (deterministic models 0-2)",
         "base run: 10 steps (8 per synchrotron period), 16x16 (and 15x15) grid, zoomed start on a shifted grid, damping on; impedance in {collimator, none, shielded CSR}"]
     exe = pl.build.build_bin("plain")
     pl.warm(exe, [["-s", n] + BASE + IMP[i] + ["-n", 1] for i in IMP for n in (16, 15)], "c12warm")
@@ -57,23 +59,23 @@ def run(res, tier):
     saves = [0, 1, 2]
     tracks = [None, 0, 1, 2]
     if tier == "thorough":
-        cfgs = [dict(outstep=o, save=s, track=t, verbose=v, name=nm, renorm=r, rf=rf, imp=imp, n=n)
-                for o, s, t, v, nm, r, rf, imp, n in itertools.product(outsteps, saves, tracks, [0, 1], ["a", "b_other_name"], [-1, 0, 3], ["linear", "sin"], ["collimator", "none", "csr"], [16, 15])
-                if (imp == "collimator" and n == 16) or (t in (None, 1) and nm == "a" and (n == 16 or v == 0))]
+        cfgs = [dict(outstep=o, save=s, track=t, verbose=v, name=nm, renorm=r, rf=rf, imp=imp, n=n, mod=mod)
+                for o, s, t, v, nm, r, rf, imp, n, mod in itertools.product(outsteps, saves, tracks, [0, 1], ["a", "b_other_name"], [-1, 0, 3], ["linear", "sin"], ["collimator", "none", "csr"], [16, 15], [0, 1])
+                if (imp == "collimator" and n == 16 and mod == 0) or (t in (None, 1) and nm == "a" and (n == 16 or v == 0) and (mod == 0 or (v == 0 and imp != "csr")))]
     else:
         cfgs = []
-        for r, rf, imp, n in [(0, "linear", "collimator", 16), (3, "linear", "collimator", 16), (-1, "sin", "collimator", 16), (3, "linear", "none", 16), (2, "sin", "csr", 16),
-                              (2, "linear", "csr", 15)]:
+        for r, rf, imp, n, mod in [(0, "linear", "collimator", 16, 0), (3, "linear", "collimator", 16, 0), (-1, "sin", "collimator", 16, 0), (3, "linear", "none", 16, 0), (2, "sin", "csr", 16, 0),
+                                   (2, "linear", "csr", 15, 0), (0, "linear", "collimator", 16, 1), (-1, "sin", "none", 16, 1)]:
             for o, s in itertools.product(outsteps, saves):                       # full cadence product
-                cfgs.append(dict(outstep=o, save=s, track=None, verbose=0, name="a", renorm=r, rf=rf, imp=imp, n=n))
+                cfgs.append(dict(outstep=o, save=s, track=None, verbose=0, name="a", renorm=r, rf=rf, imp=imp, n=n, mod=mod))
             for t in [0, 1, 2]:                                                   # single deviations
-                cfgs.append(dict(outstep=2, save=1, track=t, verbose=0, name="a", renorm=r, rf=rf, imp=imp, n=n))
-            cfgs.append(dict(outstep=2, save=1, track=None, verbose=1, name="a", renorm=r, rf=rf, imp=imp, n=n))
-            cfgs.append(dict(outstep=3, save=2, track=1, verbose=1, name="b_other_name", renorm=r, rf=rf, imp=imp, n=n))
+                cfgs.append(dict(outstep=2, save=1, track=t, verbose=0, name="a", renorm=r, rf=rf, imp=imp, n=n, mod=mod))
+            cfgs.append(dict(outstep=2, save=1, track=None, verbose=1, name="a", renorm=r, rf=rf, imp=imp, n=n, mod=mod))
+            cfgs.append(dict(outstep=3, save=2, track=1, verbose=1, name="b_other_name", renorm=r, rf=rf, imp=imp, n=n, mod=mod))
     # the reference of every physics key: every step written, every phase space saved
     refs = {}
     for k in sorted(set(phys_key(c) for c in cfgs)):
-        refs[k] = dict(outstep=1, save=1, track=None, verbose=0, name="ref", renorm=k[0], rf=k[1], imp=k[2], n=k[3])
+        refs[k] = dict(outstep=1, save=1, track=None, verbose=0, name="ref", renorm=k[0], rf=k[1], imp=k[2], n=k[3], mod=k[4])
 
     def do(ic):
         i, c, rep = ic
